@@ -322,6 +322,8 @@ structure RR where
   up : Bool
   /-- the address hints of an HTTPS record, in record order -/
   hints : List Host := []
+  /-- the target of a CNAME record as it is spelled on the wire: its labels, letter case kept -/
+  target : Host := []
 deriving DecidableEq, Repr
 
 structure Msg where
@@ -331,6 +333,9 @@ structure Msg where
   soa : Option Nat
   /-- authority records obtained from upstream -/
   upNs : Nat := 0
+  /-- records of the additional section obtained from upstream (OPT pseudo-records not counted);
+  every message the constructor builds (`Constructor.NewResp`) starts without any -/
+  upExtra : Nat := 0
 deriving DecidableEq, Repr
 
 inductive Mode where
@@ -373,12 +378,38 @@ def blockedResp (m : Mode) (ttl : Nat) (host : Host) (qt : QType) : Option Msg :
 /-- What is written when `NewBlockedResp` fails (after the fix: SERVFAIL without records). -/
 def blockedFallback : Msg := { rcode := 2, ans := [], soa := Option.none }
 
-def ansOf (r : RR) : Ans :=
+/-! ### Letter case: `agdnet.NormalizeDomain`
+
+On the wire a name is a list of labels in which letter case is kept but carries no meaning.  The rule
+lists are matched against lower-case names, so every name must be folded before it reaches them:
+the question name is (`ratelimitmw.newRequestInfo`), and — since the `fix:` commit — so is the target
+of a CNAME answer (`composite.parseRespAnswer`).  Addresses are rendered by `netip`/`net.IP` and are
+lower-case by construction. -/
+
+def lowerChar (c : Char) : Char :=
+  if 'A' ≤ c ∧ c ≤ 'Z' then Char.ofNat (c.toNat + 32) else c
+
+/-- `strings.ToLower` on ASCII. -/
+def lower (s : String) : String := String.ofList (s.toList.map lowerChar)
+
+/-- `agdnet.NormalizeDomain` on a name given by its labels (the trailing dot of the text form is the
+empty root label, which the label list does not contain). -/
+def normName (n : Host) : Host := n.map lower
+
+/-- `parseRespAnswer` + `filterHTTPSAnswer`: what of an answer record reaches the rule lists.  `norm`
+is what is done to the target of a CNAME. -/
+def ansOfWith (norm : Host → Host) (r : RR) : Ans :=
   if r.typ == qtA then .a (r.val.splitOn ".")
   else if r.typ == qtAAAA then .aaaa (r.val.splitOn ".")
-  else if r.typ == qtCNAME then .cname (r.val.splitOn ".")
+  else if r.typ == qtCNAME then .cname (norm r.target)
   else if r.typ == qtHTTPS then .https r.hints
   else .other
+
+/-- The code as it is now: the CNAME target is normalised. -/
+def ansOf (r : RR) : Ans := ansOfWith normName r
+
+/-- The code before the `fix:` commit: only the trailing dot was removed. -/
+def ansOfUnfixed (r : RR) : Ans := ansOfWith id r
 
 /-- Profile/device switches of `Middleware.filter`. -/
 structure Switches where
@@ -415,8 +446,8 @@ def hashRespMsg (m : Mode) (ttl : Nat) (host : Host) (qt : QType) (v4 : Bool) (i
 
 /-- The main middleware for one query: request filter, upstream, response filter,
 `setFilteredResponse`.  `fb` is what is written when `NewBlockedResp` fails, as a function of the
-upstream reply. -/
-def serveWith (fb : Msg → Msg) (e : Env) (host : Host) (qt : QType) : Msg :=
+upstream reply; `rd` is how an answer record is read for response filtering. -/
+def serveWith (fb : Msg → Msg) (rd : RR → Ans) (e : Env) (host : Host) (qt : QType) : Msg :=
   let flt := selectFilter e.sw e.prof e.grp
   let rv := match flt with | some c => filterRequest c host qt | Option.none => Verdict.none
   match rv with
@@ -429,16 +460,41 @@ def serveWith (fb : Msg → Msg) (e : Env) (host : Host) (qt : QType) : Msg :=
   | .hashResp _ v4 ip => hashRespMsg e.mode e.ttl host qt v4 ip
   | .none =>
     let orig := e.upstream host qt
-    let pv := match flt with | some c => filterResponse c (orig.ans.map ansOf) | Option.none => Verdict.none
+    let pv := match flt with | some c => filterResponse c (orig.ans.map rd) | Option.none => Verdict.none
     match pv with
     | .blocked _ => (blockedResp e.mode e.ttl host qt).getD (fb orig)
     | _ => orig
 
 /-- The code as it is now (with the `fix:` commit): fail closed with SERVFAIL. -/
-def serve (e : Env) (host : Host) (qt : QType) : Msg := serveWith (fun _ => blockedFallback) e host qt
+def serve (e : Env) (host : Host) (qt : QType) : Msg :=
+  serveWith (fun _ => blockedFallback) ansOf e host qt
 
 /-- The code before the fix: the upstream reply is written when `NewBlockedResp` fails. -/
-def serveUnfixed (e : Env) (host : Host) (qt : QType) : Msg := serveWith id e host qt
+def serveUnfixed (e : Env) (host : Host) (qt : QType) : Msg := serveWith id ansOf e host qt
+
+/-- The code before the second `fix:` commit: the target of a CNAME answer reached the rule lists in
+its wire spelling. -/
+def serveCaseSensitive (e : Env) (host : Host) (qt : QType) : Msg :=
+  serveWith (fun _ => blockedFallback) ansOfUnfixed e host qt
+
+/-! ### Debug queries (`writeDebugResponse`, `filteringData`)
+
+A question asked in the CHAOS class is filtered exactly like the same question in the INET class (the
+class is reset before filtering and none of the filters looks at it); the answer is the same message
+with TXT records appended that report the verdict: the request's if there is one, otherwise the
+response's. -/
+
+/-- `(fromRequest, verdict)` as reported. -/
+def reportedVerdict (e : Env) (host : Host) (qt : QType) : Bool × Verdict :=
+  match selectFilter e.sw e.prof e.grp with
+  | Option.none => (false, .none)
+  | some c =>
+    match filterRequest c host qt with
+    | .none => (false, filterResponse c ((e.upstream host qt).ans.map ansOf))
+    | v => (true, v)
+
+/-- The message part of the answer to a debug query: the ordinary answer. -/
+def serveDebug (e : Env) (host : Host) (qt : QType) : Msg := serve e host qt
 
 /-! ## `filterstorage.Default.ForConfig`: from the configured switches to the composite filter -/
 
@@ -566,9 +622,16 @@ def assemble (st : Storage) (p : PCfg) : Cfg :=
 
 /-! ## Whose message constructor: `ratelimitmw.newRequestInfo` -/
 
-/-- A profile as far as this property looks at it.  `ttl` is an integer because a negative
-`FilteredResponseTTL` makes `dnsmsg.NewConstructor` fail, in which case — as for a nil blocking mode —
-the server's constructor stays in place. -/
+def nsPerSec : Int := 1000000000
+
+/-- `uint32(c.fltRespTTL.Seconds())` (`Constructor.newHdrWithClass`): the TTL of every synthesised
+record is the number of *whole* seconds of the configured duration (nanoseconds).  (Durations of 2^32
+seconds and more have no DNS TTL; Go leaves that conversion implementation-defined.) -/
+def durSecs (d : Int) : Nat := (d / nsPerSec).toNat
+
+/-- A profile as far as this property looks at it.  `ttl` is `FilteredResponseTTL`, a
+`time.Duration` in nanoseconds; a negative one makes `dnsmsg.NewConstructor` fail, in which case — as
+for a nil blocking mode — the server's constructor stays in place. -/
 structure Profile where
   conf : PCfg
   /-- `none` = a nil `BlockingMode`, the other way `NewConstructor` fails -/
@@ -591,7 +654,7 @@ constructor can be made from it), the server's otherwise. -/
 def ctorOf (srv : Server) : Option Profile → Mode × Nat
   | some p =>
     match p.mode with
-    | some m => if p.ttl < 0 then (srv.mode, srv.ttl) else (m, p.ttl.toNat)
+    | some m => if p.ttl < 0 then (srv.mode, srv.ttl) else (m, durSecs p.ttl)
     | Option.none => (srv.mode, srv.ttl)
   | Option.none => (srv.mode, srv.ttl)
 
